@@ -383,11 +383,33 @@ func c07R2(c *Check) {
 		if !ok {
 			return false
 		}
+		// the subject is the input, its prefix up to the first '#', or one or the other chosen by a branch
+		// (`before := in; if hash != -1 { before = in[:hash] }; strings.Index(before, "?")`)
+		okSubj := func(subj ssa.Value) bool {
+			subj = resolveCell(stripConv(subj))
+			if subj == in {
+				return true
+			}
+			if sl, isS := subj.(*ssa.Slice); isS && sl.X == in && sl.Low == nil && sl.High != nil {
+				for _, hl := range Leaves(sl.High, leafOpts{noConcat: true}) {
+					if !hashIdx(resolveCell(stripConv(hl))) {
+						return false
+					}
+				}
+				return true
+			}
+			return false
+		}
 		subj := call.Common().Args[0]
-		if subj == in {
+		if okSubj(subj) {
 			return true
 		}
-		if sl, isS := subj.(*ssa.Slice); isS && sl.X == in && sl.Low == nil && sl.High != nil && hashIdx(sl.High) {
+		if ph, isPhi := resolveCell(stripConv(subj)).(*ssa.Phi); isPhi {
+			for _, e := range ph.Edges {
+				if !okSubj(e) {
+					return false
+				}
+			}
 			return true
 		}
 		return false
